@@ -160,6 +160,9 @@ impl Sim {
     pub fn new_world(first_op: &str) -> Sim {
         let perm = first_op == "world perm";
         let fresh = first_op == "world fresh";
+        // `world nocp`: the node starts at the genesis block instead of the compiled-in checkpoint, so its
+        // tracker stays below the checkpoint height (a signer that has synced only a few blocks)
+        let nocp = first_op == "world nocp";
         let persister: Arc<SimPersister> =
             Arc::new(KVVPersister(CloudKVVStore::new(MemoryKVVStore::new([7u8; 16])), JsonFormat));
         let clock = Arc::new(ManualClock::new(Duration::from_secs(1_600_000_000)));
@@ -167,7 +170,7 @@ impl Sim {
         let config = NodeConfig {
             network: Network::Testnet,
             key_derivation_style: KeyDerivationStyle::Native,
-            use_checkpoints: true,
+            use_checkpoints: !nocp,
             allow_deep_reorgs: true,
         };
         persister.enter().unwrap();
